@@ -5,6 +5,10 @@ go 1.13
 require (
 	github.com/anishathalye/porcupine v1.3.0
 	github.com/pokt-network/posmint v0.0.0
+	github.com/tendermint/go-amino v0.15.0
+	github.com/tendermint/iavl v0.12.4
+	github.com/tendermint/tendermint v0.32.10
+	github.com/tendermint/tm-db v0.2.0
 )
 
 replace github.com/pokt-network/posmint => /repo
